@@ -1105,29 +1105,12 @@ func (ff *FuncFacts) node(n ast.Node, st *State, record bool) *State {
 	case *ast.DeclStmt:
 		if gd, ok := x.Decl.(*ast.GenDecl); ok && gd.Tok == token.VAR {
 			for _, sp := range gd.Specs {
-				vs := sp.(*ast.ValueSpec)
-				for _, v := range vs.Values {
-					st = ff.expr(v, st, record)
-				}
-				for i, name := range vs.Names {
-					obj := ff.info().Defs[name]
-					if obj == nil {
-						continue
-					}
-					lt := TVar(obj)
-					st = ff.killTerm(st, lt)
-					if len(vs.Values) == len(vs.Names) {
-						if rt := ff.term(vs.Values[i]); rt != nil && !rt.mentions(lt.String()) && ff.pureTerm(rt) {
-							st = st.add(mkFact(true, "eq", lt, rt))
-						}
-					} else if len(vs.Values) == 0 {
-						if z := zeroTerm(obj.Type()); z != nil {
-							st = st.add(mkFact(true, "eq", lt, z))
-						}
-					}
-				}
+				st = ff.valueSpec(sp.(*ast.ValueSpec), st, record)
 			}
 		}
+	case *ast.ValueSpec:
+		// go/cfg lists each spec of a `var` declaration as a node of its own
+		st = ff.valueSpec(x, st, record)
 	case *ast.GoStmt:
 		for _, a := range x.Call.Args {
 			st = ff.expr(a, st, record)
@@ -3910,4 +3893,32 @@ func (ff *FuncFacts) containsFuncFalse(st *State, call *ast.CallExpr) *State {
 		add = append(add, mkFact(f.Pos, f.Op, f.A.subst(vs, each), b))
 	}
 	return st.with(add...)
+}
+
+// valueSpec: var a, b T = x, y  is  a, b := x, y  for what is known afterwards
+// (the declared type is the variables' type either way); without values the
+// variables hold their zero value.
+func (ff *FuncFacts) valueSpec(vs *ast.ValueSpec, st *State, record bool) *State {
+	for _, v := range vs.Values {
+		st = ff.expr(v, st, record)
+	}
+	if len(vs.Values) > 0 {
+		lhs := make([]ast.Expr, len(vs.Names))
+		for i, name := range vs.Names {
+			lhs[i] = name
+		}
+		return ff.assign(&ast.AssignStmt{Lhs: lhs, TokPos: vs.Pos(), Tok: token.DEFINE, Rhs: vs.Values}, st)
+	}
+	for _, name := range vs.Names {
+		obj := ff.info().Defs[name]
+		if obj == nil {
+			continue
+		}
+		lt := TVar(obj)
+		st = ff.killTerm(st, lt)
+		if z := zeroTerm(obj.Type()); z != nil && st != nil {
+			st = st.add(mkFact(true, "eq", lt, z))
+		}
+	}
+	return st
 }
